@@ -68,6 +68,7 @@ REPLAY_HELP = ('bin/check C09 --replay <this file>  (or by hand: start qtogglese
                'expected = the level required by coq/theories/C09/Spec.v required_spec)')
 
 _state = {}
+COQ_JOBS = 2
 
 
 # ---------------------------------------------------------------------------------------------------------------------
@@ -274,7 +275,8 @@ def setup_impl(ctx, res):
         levels[u] = core_api.ACCESS_LEVEL_MAPPING[u]
     events_name = 'qtoggleserver.slaves.api.funcs.devices.post_slave_device_events'
     events_wrapper = next((w for w in wrappers.values() if '%s.%s' % (w.__module__, w.__name__) == events_name), None)
-    impl = {'calls': calls, 'fresh_auth': fresh_auth, 'events_wrapper': events_wrapper,
+    impl = {'calls': calls, 'fresh_auth': fresh_auth, 'events_wrapper': events_wrapper, 'originals': originals,
+            'wrappers_by_name': {'%s.%s' % (w.__module__, w.__name__): w for w in wrappers.values()},
             'events_original': originals.get(events_name), 'hashes': hashes, 'levels': levels, 'server': web_server, 'runtime_levels': runtime_levels,
             'n_wrappers': len(wrappers)}
     _state['impl'] = impl
@@ -437,7 +439,7 @@ async def run_requests(impl, app, reqs):
             hd['Authorization'] = auth[r['user']]
         body = None
         if r['method'] in ('POST', 'PUT', 'PATCH'):
-            body = r['body'] % i if 'body' in r else '{}'
+            body = r['body'].replace('{CASE}', str(i)) if 'body' in r else '{}'
             hd['Content-Type'] = 'application/json' if r['json'] else 'text/plain'
         async with sem:
             try:
@@ -651,7 +653,7 @@ async def events_phase(ctx, impl, tr, res, flagset):
             for label, header, cfacts in ev_credentials(impl, slave_hash):
                 path = '/api/devices/%s/events' % name
                 reqs.append({'path': path, 'method': 'POST', 'user': None, 'json': True, 'noauth': True,
-                             'auth_header': header, 'body': '{"type": "c09-probe", "params": {"case": %d}}'})
+                             'auth_header': header, 'body': '{"type": "c09-probe", "params": {"case": {CASE}}}'})
                 metas.append({'flags_on': sorted(flagset), 'path': path, 'method': 'POST', 'slave': name,
                               'credential': label, 'sfacts': sfacts, 'cfacts': cfacts})
         w.__closure__[1].cell_contents = impl['events_original']   # the real body, for this phase only
@@ -708,6 +710,231 @@ def evaluate_events(ctx, res, cases):
     return len(cases)
 
 
+# ---------------------------------------------------------------------------------------------------------------------
+# the level granted by prepare(): the sweep under the 8 empty / non-empty configurations of the three passwords (stubbed)
+
+async def auth_phase(ctx, impl, tr, res, flagset):
+    """-> list of cases {pw_config, path, tmpl, method, header, facts (present, valid, admin_empty, token_level), observed}"""
+    from qtoggleserver.core.api import auth as core_api_auth
+    from qtoggleserver.core.device import attrs as core_device_attrs
+    table, app = await build_app(impl, tr, flagset, ctx.workdir, res)
+    pairs = []   # (path, tmpl, method)
+    for e in tr['entries']:
+        if e['kind'] == 'KApi' and all(g in flagset for g in e['guard']):
+            for m in METHODS:
+                if m in tr['classes'][e['handler']]['methods']:
+                    pairs.append((sample_path(e['tmpl']), e['tmpl'], m))
+    if not pairs:   # translator fallback: every running API URLSpec x the methods that carry functions today
+        for sp in table:
+            if not is_qui(sp):
+                tmpl, _ = safe_template(sp.regex.pattern)
+                path = sample_for_regex(sp.regex.pattern)
+                if tmpl not in ('/api/*', '/*') and path:
+                    pairs += [(path, tmpl, m) for m in ('GET', 'POST', 'PUT', 'PATCH', 'DELETE')]
+    saved = {u: getattr(core_device_attrs, u + '_password_hash') for u in PASSWORDS}
+    empty = core_device_attrs.EMPTY_PASSWORD_HASH
+    wrong = hashlib.sha256(b'c09-not-a-password').hexdigest()
+    out = []
+    try:
+        for bits in itertools.product([0, 1], repeat=3):   # 1 = password set
+            cfg = dict(zip(('admin', 'normal', 'viewonly'), bits))
+            for u, b in cfg.items():
+                setattr(core_device_attrs, u + '_password_hash', impl['hashes'][u] if b else empty)
+            admin_empty = not cfg['admin']
+            headers = [('no-header', None, (False, False, 0))]
+            for u in ('viewonly', 'normal', 'admin'):
+                cur = impl['hashes'][u] if cfg[u] else empty
+                headers.append(('valid-%s-token' % u, core_api_auth.make_auth_header(core_api_auth.ORIGIN_CONSUMER, u, cur),
+                                (True, True, impl['levels'][u])))
+            headers.append(('admin-token-wrong-key', core_api_auth.make_auth_header(core_api_auth.ORIGIN_CONSUMER, 'admin', wrong),
+                            (True, False, impl['levels']['admin'])))
+            headers.append(('garbage-bearer', 'Bearer abc.def.ghi', (True, False, 0)))
+            reqs, metas = [], []
+            for path, tmpl, m in pairs:
+                for label, hdr, (present, valid, tl) in headers:
+                    reqs.append({'path': path, 'method': m, 'user': None, 'json': True, 'noauth': True, 'auth_header': hdr})
+                    metas.append({'flags_on': sorted(flagset), 'pw_config': {u: ('set' if b else 'empty') for u, b in cfg.items()},
+                                  'path': path, 'tmpl': tmpl, 'method': m, 'header': label,
+                                  'facts': (present, valid, admin_empty, tl)})
+            outs = await run_requests(impl, app, reqs)
+            for mt, o in zip(metas, outs):
+                mt['observed'] = o
+                out.append(mt)
+    finally:
+        for u, h in saved.items():
+            setattr(core_device_attrs, u + '_password_hash', h)
+    return out
+
+
+def evaluate_auth(ctx, res, cases):
+    if not cases:
+        return 0
+    shards, metas = [], []
+    for i in range(0, len(cases), 1000):
+        part = cases[i:i + 1000]
+        S = Intern()
+        text = 'Definition on : list string := %s.\nDefinition acases : list acase := [\n%s\n].\n' % (
+            coq.lst(part[0]['flags_on'], S),
+            ';\n'.join(' (%s, %s, %s, %s, %s, %d, %s)' % (
+                S(c['tmpl']), c['method'], coq.boolean(c['facts'][0]), coq.boolean(c['facts'][1]),
+                coq.boolean(c['facts'][2]), c['facts'][3], coq_obs(c['observed'], S)) for c in part))
+        shards.append(S.defs() + text)
+        metas.append(part)
+    if ctx.model_ok:
+        evals, hdr = ['bad_auth_model on acases', 'bad_auth_spec acases'], HEADER
+    else:
+        evals, hdr = ['bad_auth_spec acases'], HEADER.replace('C09.Run', 'C09.SpecRun')
+    outs = coq.eval_shards(ctx.workdir, 'c09auth_%d' % _state.get('round', 0), hdr, shards, evals, jobs=COQ_JOBS)
+    show = lambda c: {k: c[k] for k in ('flags_on', 'pw_config', 'path', 'method', 'header', 'observed')}  # noqa: E731
+    for (rc, lists, err), part in zip(outs, metas):
+        if rc != 0 or len(lists) != len(evals):
+            res['tie_failures'].append('coqc failed on the password-configuration cases: %s' % err[-600:])
+            continue
+        bad_model, bad_spec = (lists if ctx.model_ok else ([], lists[0]))
+        for i in bad_model:
+            res['tie_failures'].append({'note': 'model (grant + tables) differs from the implementation', 'case': show(part[i])})
+        for i in bad_spec:
+            c = part[i]
+            present, valid, admin_empty, tl = c['facts']
+            lvl = (tl if valid else 0) if present else (30 if admin_empty else 0)
+            o = c['observed']
+            res['violations'].append({
+                'key': {'kind': 'level-granted', 'header': c['header'], 'admin_password': c['pw_config']['admin'],
+                        'route': c['tmpl'], 'method': c['method']},
+                'what': '%s %s with %s under passwords %s %s; the specification grants level %d to this request '
+                        '(a header is judged alone; only a request without header is admin when the admin password is empty)'
+                        % (c['method'], c['path'], c['header'], c['pw_config'],
+                           'ran %s' % o[1] if o[0] == 'ran' else 'was answered %s' % (o[1],), lvl),
+                'case': dict(show(c), phase='password configurations (stubbed bodies)'),
+                'expected': 'the decision of required_spec for level %d' % lvl,
+                'observed': list(o),
+            })
+    return len(cases)
+
+
+# ---------------------------------------------------------------------------------------------------------------------
+# credentials as state: histories on the un-stubbed /device functions, run by harness/props/c09_worker.py in a fresh process
+
+def run_state_worker(ctx, res, n_random):
+    import subprocess
+    out = os.path.join(ctx.workdir, 'c09_state.json')
+    env = dict(os.environ)
+    p = subprocess.run([sys.executable, '-m', 'harness.props.c09_worker', out, str(ctx.seed), str(n_random)],
+                       cwd=coq.VERIF, env=env, capture_output=True, text=True, timeout=900)
+    if p.returncode != 0 or not os.path.exists(out):
+        res['tie_failures'].append('state worker failed: %s' % (p.stderr or p.stdout)[-1200:])
+        return None
+    with open(out) as f:
+        return json.load(f)
+
+
+def _coq_user(u):
+    return {'admin': 'UAdmin', 'normal': 'UNormal', 'viewonly': 'UViewonly'}[u]
+
+
+def _coq_cred(c):
+    if c[0] == 'none':
+        return 'CrNone'
+    if c[0] == 'garbage':
+        return 'CrGarbage'
+    return '(CrToken %s %d)' % (_coq_user(c[1]), c[2])
+
+
+def _coq_op(o):
+    if o[0] == 'setpw':
+        return '(OpSetPw %s %d)' % (_coq_user(o[1]), o[2])
+    return {'put': 'OpPutDevice', 'patchother': 'OpPatchOther'}[o[0]]
+
+
+def evaluate_state(ctx, res, data):
+    """data: {'flags_on': [...], 'histories': [{'steps': [{'op','cred','observed'}], 'probes': [{'tmpl','path','method','cred',
+    'observed'}]}]} -> one Coq case for the steps of each history and one per probe"""
+    if not data:
+        return 0
+    items = []   # (history index, probe index or None)
+    for hi, h in enumerate(data['histories']):
+        items.append((hi, None))
+        items += [(hi, pi) for pi in range(len(h['probes']))]
+    shards, metas = [], []
+    for i in range(0, len(items), 1000):
+        part = items[i:i + 1000]
+        S = Intern()
+        step_names = {}
+        defs = []
+        rows = []
+        for hi, pi in part:
+            h = data['histories'][hi]
+            if hi not in step_names:
+                step_names[hi] = 'h%d' % hi
+                defs.append('Definition h%d : list hstep := %s.' % (hi, coq.lst(
+                    h['steps'], lambda st: '(%s, %s, %s)' % (_coq_op(st['op']), _coq_cred(st['cred']),
+                                                           coq_obs(tuple(st['observed']), S)))))
+            if pi is None:
+                rows.append(' (h%d, [])' % hi)
+            else:
+                pr = h['probes'][pi]
+                rows.append(' (h%d, [(%s, %s, %s, %s)])' % (hi, S(pr['tmpl']), pr['method'], _coq_cred(pr['cred']),
+                                                            coq_obs(tuple(pr['observed']), S)))
+        text = ('Definition on : list string := %s.\n' % coq.lst(data['flags_on'], S) + '\n'.join(defs)
+                + '\nDefinition hcases : list hcase := [\n%s\n].\n' % ';\n'.join(rows))
+        shards.append(S.defs() + text)
+        metas.append(part)
+    if ctx.model_ok:
+        evals, hdr = ['bad_hist_model on hcases', 'bad_hist_spec hcases'], HEADER
+    else:
+        evals, hdr = ['bad_hist_spec hcases'], HEADER.replace('C09.Run', 'C09.SpecRun')
+    outs = coq.eval_shards(ctx.workdir, 'c09hist_%d' % _state.get('round', 0), hdr, shards, evals, jobs=COQ_JOBS)
+
+    def describe(hi, pi):
+        h = data['histories'][hi]
+        d = {'flags_on': data['flags_on'], 'phase': 'credential histories (real /device bodies, fresh process)',
+             'initial_state': 'factory: all three passwords empty',
+             'steps': [{'op': st['op'], 'credential': st['cred'], 'request': st['request'], 'observed': st['observed']}
+                       for st in h['steps']]}
+        if pi is not None:
+            pr = h['probes'][pi]
+            d['probe'] = {'method': pr['method'], 'path': pr['path'], 'credential': pr['cred'], 'observed': pr['observed']}
+        return d
+    bad_steps_model, bad_steps_spec = set(), set()
+    for (rc, lists, err), part in zip(outs, metas):
+        if rc != 0 or len(lists) != len(evals):
+            res['tie_failures'].append('coqc failed on the credential histories: %s' % err[-600:])
+            continue
+        bad_model, bad_spec = (lists if ctx.model_ok else ([], lists[0]))
+        for i in bad_model:
+            hi, pi = part[i]
+            if pi is None:
+                bad_steps_model.add(hi)
+            if pi is None or hi not in bad_steps_model:
+                res['tie_failures'].append({'note': 'model of the credential history differs from the implementation',
+                                            'case': describe(hi, pi)})
+        for i in bad_spec:
+            hi, pi = part[i]
+            if pi is None:
+                bad_steps_spec.add(hi)
+            elif hi in bad_steps_spec:
+                continue
+            d = describe(hi, pi)
+            hist = ' ; '.join('%s as %s -> %s' % (st['request'], st['cred'], st['observed'][-1] if st['observed'][0] == 'status'
+                                                  else 'served') for st in data['histories'][hi]['steps'])
+            if pi is None:
+                what = 'a step of the history [%s] was decided against the specification' % hist
+                key = {'kind': 'credential-history-step', 'ops': [st['op'][0] for st in data['histories'][hi]['steps']]}
+            else:
+                pr = data['histories'][hi]['probes'][pi]
+                o = pr['observed']
+                what = ('after [%s]: %s %s with credential %s %s, against the level this caller has in the password state the '
+                        'history should have produced (PUT /device keeps the passwords)'
+                        % (hist, pr['method'], pr['path'], pr['cred'], 'ran %s' % o[1] if o[0] == 'ran' else 'was answered %s' % (o[1],)))
+                key = {'kind': 'credential-history-probe', 'ops': [st['op'][0] for st in data['histories'][hi]['steps']],
+                       'route': pr['tmpl'], 'method': pr['method'], 'credential': pr['cred'][0]}
+            res['violations'].append({'key': key, 'what': what, 'case': d,
+                                      'expected': 'decision of required_spec at the level of cred_level grant_spec in the '
+                                                  'state reached by step_spec (coq/theories/C09/Spec.v)',
+                                      'observed': d.get('probe', {}).get('observed') or [st['observed'] for st in d['steps']]})
+    return sum(len(h['steps']) + len(h['probes']) for h in data['histories'])
+
+
 def flag_sets(tr, defaults, mode, rng):
     names = tr['flags']
     base = frozenset(n for n in names if defaults[n])
@@ -761,12 +988,12 @@ def evaluate(ctx, res, groups):
         coq.build(['theories/C09/SpecRun.vo'])
     if have_model:
         outs = coq.eval_shards(ctx.workdir, 'c09cases_%d' % _state.setdefault('round', 0), HEADER, shards,
-                               ['bad_model groups', 'bad_spec groups', 'bad_spec_required groups'])
+                               ['bad_model groups', 'bad_spec groups', 'bad_spec_required groups'], jobs=COQ_JOBS)
     else:
         res['tie_failures'].append('model not built; cases evaluated against the specification only')
         hdr = HEADER.replace('C09.Run', 'C09.SpecRun')
         outs = coq.eval_shards(ctx.workdir, 'c09spec_%d' % _state.setdefault('round', 0), hdr, shards,
-                               ['bad_spec groups', 'bad_spec_required groups'])
+                               ['bad_spec groups', 'bad_spec_required groups'], jobs=COQ_JOBS)
     _state['round'] += 1
     for (rc, lists, err), cases in zip(outs, metas):
         want = 3 if have_model else 2
@@ -815,7 +1042,7 @@ def routing_sweep(ctx, impl, tr, res, sets):
         shards.append(S.defs() + text)
         metas.append(part)
     if ctx.model_ok:
-        outs = coq.eval_shards(ctx.workdir, 'c09routing', HEADER, shards, ['bad_routing tmpls sets'])
+        outs = coq.eval_shards(ctx.workdir, 'c09routing', HEADER, shards, ['bad_routing tmpls sets'], jobs=COQ_JOBS)
         for (rc, lists, err), part in zip(outs, metas):
             if rc != 0 or len(lists) != 1:
                 res['tie_failures'].append('coqc failed on a routing shard: %s' % err[-600:])
@@ -876,11 +1103,34 @@ def run(ctx, res, mode):
             ev_sets.append(frozenset(tr['flags']))
         for fs in ev_sets:
             evcases.extend(await events_phase(ctx, impl, tr, res, fs))
-    evcases = []
+        # the level granted by prepare() under the 8 password configurations (always)
+        authcases.extend(await auth_phase(ctx, impl, tr, res, sets[0]))
+    evcases, authcases = [], []
     asyncio.run(go())
     t_impl = time.time() - t0
+    # credentials as state, in a fresh process (always)
+    t_w = time.time()
+    state = run_state_worker(ctx, res, 40 if mode == 'quick' else 400)
+    res['extra']['state_worker_wall_s'] = round(time.time() - t_w, 2)
     n = evaluate(ctx, res, groups)
     n += evaluate_events(ctx, res, evcases)
+    n += evaluate_auth(ctx, res, authcases)
+    n += evaluate_state(ctx, res, state)
+    res['distribution']['password_configuration_cases'] = len(authcases)
+    if state:
+        res['distribution']['credential_histories'] = len(state['histories'])
+        res['distribution']['credential_history_steps'] = sum(len(h['steps']) for h in state['histories'])
+        res['distribution']['credential_history_probes'] = sum(len(h['probes']) for h in state['histories'])
+        res['distinct_nontrivial'] += sum(1 for h in state['histories'] if any(st['observed'][0] == 'ran' for st in h['steps']))
+        if state['histories']:
+            h = state['histories'][0]
+            res['samples'].insert(0, {'credential_history': [[st['request'], st['cred'], st['observed']] for st in h['steps']],
+                                      'probes': [[pr['method'], pr['path'], pr['cred'], pr['observed']] for pr in h['probes'][:4]]})
+    for c in authcases:
+        if c['header'] == 'valid-normal-token' and c['pw_config']['admin'] == 'empty' and c['tmpl'] == '/api/device' \
+                and c['method'] == 'GET' and c['pw_config']['normal'] == 'set':
+            res['samples'].insert(0, {k: c[k] for k in ('pw_config', 'path', 'method', 'header', 'observed')})
+            break
     res['evaluations'] += n
     res['distribution']['slave_events_cases'] = res['distribution'].get('slave_events_cases', 0) + len(evcases)
     res['distribution']['slave_events_served'] = sum(1 for c in evcases if c['observed'][0] == 'ran')
